@@ -39,6 +39,7 @@ class Session:
         self.records = []
         self.rets = {}
         self.failed = False
+        self.ended_ns = None
         self.seq = 0
         self.history = []
         co = rng.random() < 0.6
@@ -509,6 +510,7 @@ class Session:
         name = self.new_name()
         data, ret = self.payload(), self.payload()
         mode = rng.choice(['emit_cb', 'call']) if b.is_async else 'emit_cb'
+        self.ended_ns = ns_end
         self.history.append({'sibling_namespace_ends': ns_end, 'ns': ns,
                              'name': name, 'mode': mode, 'data': data,
                              'ret': ret})
@@ -617,10 +619,53 @@ class Session:
         b = self.b
         self.ctx.count('frames_through_bridge', b.frames_c2s + b.frames_s2c)
         self.ctx.count('binary_frames_through_bridge', b.binary_frames)
+        if rng.random() < 0.4 and not self.ended_ns:
+            return self.last_words()
         try:
             b.client('disconnect')
         except Exception as e:
             self.fail('disconnect raised %r' % e)
+
+    def last_words(self):
+        """The client emits and leaves at once (emit(...); disconnect(), no
+        pause in between): the message was sent on a connected namespace, it
+        arrives at its handler, once, with its arguments."""
+        b, rng, ctx = self.b, self.rng, self.ctx
+        ns = rng.choice(NSS)
+        name = self.new_name()
+        data = self.payload()
+        self.rets[name] = None
+        n0 = len(self.records)
+        self.history.append({'last_words': name, 'ns': ns, 'data': data})
+        c = b.h.c
+        try:
+            if b.is_async:
+                async def go():
+                    await c.emit(name, data, namespace=ns)
+                    await c.disconnect()
+                b.run(go())
+            else:
+                c.emit(name, data, namespace=ns)
+                c.disconnect()
+                b.pump()
+        except Exception as e:
+            return self.fail('emit followed at once by disconnect() raised '
+                             '%r' % e)
+        errs = b.errors()
+        if errs:
+            return self.fail('emit followed at once by disconnect(): errors '
+                             '%r' % [e.get('exc') for e in errs[:2]])
+        ctx.count('last_words_judged')
+        new = [r for r in self.records[n0:] if r[2] == name]
+        if len(new) != 1 or new[0][0] != 'server' or new[0][1] != ns or \
+                not R.deep_eq(new[0][3], gen.expected_args(data)):
+            return self.fail('a message emitted right before disconnect() '
+                             '(async_handlers=%r) reached the server\'s '
+                             'handlers as %r, sent was (%r, %r, %r)' % (
+                                 self.async_handlers,
+                                 [r[:4] for r in new], ns, name,
+                                 gen.expected_args(data)))
+        ctx.case((self.cfg, 'last_words', self.async_handlers, ns), None)
 
     def close(self):
         self.b.close()
@@ -659,6 +704,7 @@ def run(ctx):
     ctx.require('callbacks_judged', 50)
     ctx.require('calls_judged', 50)
     ctx.require('bursts_judged', 10)
+    ctx.require('last_words_judged', 10)
     ctx.require('bursts_with_handlers_of_both_kinds', 5)
     ctx.require('overlapping_callback_groups', 5)
     ctx.require('binary_frames_through_bridge', 50)
